@@ -19,6 +19,9 @@ EXTRA = {
     "C20-1": ["C04"],
     "C09-1": ["C15"],
     "C08-2": [],
+    # round 2
+    "C08-5": ["C06"],  # CMTF matrix part built after normalisation: also changes the pair whose error was reported
+    "C08-6": ["C14"],  # unsorted fixed_factors (same edit as C14-2 / C14-4)
 }
 ONLY = {}
 
